@@ -71,6 +71,53 @@ CHECKS = {
                 "penalty is 100 deep; (e) rejected re-submission => dropped without refund. non-trivial = history exercising at least one of (a)-(d).",
         "assumptions": E1_ASSUME,
     },
+    "C05": {
+        "bins": True,
+        "engines": lambda tier: [{"engine": "e4", "shards": 4, "timeout_s": 1500, "args": {"family": "c05", "scenarios": 60 if tier == "thorough" else 10, "parallel": 12 if tier == "thorough" else 10}}],
+        "level": "fault_enumeration",
+        "rule": "case = one scenario against the real watchtower-client binary (driven over its stdin/stdout plugin protocol) and 1-3 scripted fake towers: 3-7 commitment "
+                "revocations (half of the scenarios notify one of them twice), each tower answering every add_appointment per a random script over {accept, subscription "
+                "error, API error codes, non-JSON, wrong shape, signature by another key, undecodable signature, empty body, connection closed without answer, HTTP 500}; fault "
+                "plan per scenario: none / tower outage during some notifications / SIGKILL when the n-th request reaches a tower (before or after its answer) / abort at the "
+                "k-th client commit point (hooked); killed clients are restarted on the same directory and the unanswered notification is sent again. Oracle (sqlite file read "
+                "only): after every answered notification, after every restart and after the retry rounds, for every answered revocation and every registered, non-misbehaving "
+                "tower exactly one of: receipt row verifying under the tower id / pending row with the full body / invalid row with the full body; every notification is "
+                "answered; no panic text. distinct = distinct (tower scripts, fault plan).",
+        "assumptions": [
+            "fake towers speak HTTP on loopback; Tor / TLS / a real lightningd are replaced by protocol-level fakes",
+            "moving a record takes the client two steps under one lock: a double record is only reported if it persists over 4 reads 120 ms apart",
+            "wall-clock is only a watchdog (25 s per call, 240 s per scenario): its firing is counted as inconclusive unless the client shows panic text",
+        ],
+    },
+    "C13": {
+        "bins": True,
+        "engines": lambda tier: [{"engine": "e4", "shards": 4, "timeout_s": 2400, "args": {"family": "c13", "scenarios": 80 if tier == "thorough" else 12, "parallel": 16 if tier == "thorough" else 12}}],
+        "level": "fault_enumeration",
+        "rule": "case = one outage/recovery scenario against the real client binary (max-retry-time 2-3 s, auto-retry-delay 3-4 s, max-interval 1 s) and one fake tower: error kind "
+                "in {connection refused, subscription error then renewable, garbage replies, connection refused + client restart, plain rejection, refused then garbage}; "
+                "recovery instant in {0.3 .. 7.5 s} after the first failure (first back-off interval, between retries, around give-up, while idle, after auto-retry fired); new "
+                "revocations arrive while the retrier is in each state; manual retrytower in settled states. Oracle: while failing no more than 12 requests per locator per "
+                "second reach the tower and after give-up it is shown unreachable with every notified appointment pending; after recovery, within max-retry-time + "
+                "auto-retry-delay + 2 max-intervals + 8 s, it is shown reachable with nothing pending and every notified appointment has a verifying receipt; the hooked "
+                "retry-loop trace never shows two loops of one tower active at once; retrytower is accepted in the documented settled states; no panic text. "
+                "distinct = distinct (kind, recovery instant, manual retry, scenario id).",
+        "assumptions": [
+            "the product defines its back-off in wall-clock seconds: bounds are >= 3x the configured delays plus 8 s slack; unbounded 'eventually' is restated as this bound",
+            "one tower per scenario; timing-independent signals (missing rows, floods, overlapping loops, panic text) are verdicts immediately",
+        ],
+    },
+    "C14": {
+        "bins": True,
+        "engines": lambda tier: [{"engine": "e4", "shards": 4, "timeout_s": 1500, "args": {"family": "c14", "scenarios": 60 if tier == "thorough" else 8, "parallel": 10 if tier == "thorough" else 8}}],
+        "level": "exploration",
+        "rule": "case = one reply of a fake tower to the real client binary: to registertower or to add_appointment, either a raw misbehaviour (non-JSON, wrong shape, signature "
+                "by another key, undecodable signature, empty, 3 MB body, HTTP 500, connection closed) or a structured mutation of a valid reply (every field dropped / null / "
+                "string / number / negative / huge / array / empty / zero / truncated / odd length; correctly signed registrations that do not extend expiry or slots). Oracle: a "
+                "registration is recorded only if the stored receipt verifies under the tower id the user gave and strictly extends the previous one; an acknowledgement signed "
+                "by another key => status misbehaving, proof row persisted, zero further requests to that tower on later revocations; after every reply the process is alive, "
+                "stderr has no panic text, listtowers answers and the next notification is answered. distinct = distinct (endpoint, reply kind).",
+        "assumptions": ["6 replies per client process, each against a fresh tower that is abandoned afterwards", "the retry path is exercised by C05/C13 with the same reply kinds"],
+    },
     "C06": {
         "engines": _e1([("auth", 150), ("mixed", 50)], [("auth", 3000), ("mixed", 1500)]),
         "level": "exploration",
